@@ -513,8 +513,24 @@ class ChainTake(NativeBounded):
     clauses = ('points-take-keeps-the-order-of-the-indices', 'references-take-keeps-the-order-of-the-indices')
 
 
+class LocateWithinTol(NativeBounded):
+    """Topology.locate through StructuredTopology._locate / _asaffine (the affine fast path) and the generic Newton path: the returned
+    sample maps, in input order, to within the tolerance of the targets, or LocateError is raised.  Floating point, outside the SMT
+    model: a BOUNDED native stand-in over small structured topologies (also one element wide) and separable geometries that are affine
+    or strictly monotone nonlinear in one direction."""
+    prop = PROP
+    fn = 'topology:StructuredTopology._asaffine'
+    label = 'native-enumeration'
+    bounded = ('native enumeration: mesh.rectilinear of shape (1) (2) (3) (1,1) (2,1) (1,2) (3,1) (1,3) (2,2) (1,2,1) (2,1,1); per direction one of '
+               'x, 2x+1, x^2, x+x^3/8 with at most one nonlinear direction; two interior targets per element in reversed element order; tol=1e-10, '
+               'images compared to 1e-8')
+    module = 'c11'
+    call = 'locate_within_tol()'
+    clauses = ('located-points-map-to-the-targets-in-input-order',)
+
+
 def contracts():
-    cs = [ChainTake()]
+    cs = [ChainTake(), LocateWithinTol()]
     for t in (0, 2):
         cs += [IndexLookup(t), MaskedLookup(t), ReorderedLookup(t), UniformDerivedLookup(t), DerivedLookup(t)]
     cs += [ChainedLookup(0), ChainedLookup(2), IndexLookupNegative(), IndexLookupForeign(), MaskedForeign(), AxisInverse('unmap-after-map'), AxisInverse('map-after-unmap')]
